@@ -222,19 +222,54 @@ def async_fold_rule(ctx: Ctx, ft: ast.AST | None = None) -> None:
     if ft is None:
         ft = as_const_classes(ctx)["_FilterTestCommon"]
     rs = [r for r in astq.raises(ft) if astq.raise_type(r).endswith("Impossible")]
+    # truth table of the refusal over (is_async, async variant, coroutine function): nested
+    # ifs, one conjunction and named sub-tests are the same function
+    import copy as _copy
+    import itertools as _it
+
+    named = {}
+    for a_ in ast.walk(ft):
+        if isinstance(a_, ast.Assign) and len(a_.targets) == 1 and isinstance(a_.targets[0], ast.Name) and isinstance(a_.value, (ast.BoolOp, ast.Compare, ast.UnaryOp, ast.Call)):
+            nm = a_.targets[0].id
+            if sum(1 for x in ast.walk(ft) if isinstance(x, ast.Name) and x.id == nm and isinstance(x.ctx, ast.Store)) == 1 and any(k in ast.unparse(a_.value) for k in ("is_async", "jinja_async_variant", "iscoroutinefunction")):
+                named[nm] = a_.value
+
+    def _leaf(txt: str) -> str | None:
+        return "I" if "is_async" in txt and "jinja_async_variant" not in txt else "V" if "jinja_async_variant" in txt else "C" if "iscoroutinefunction" in txt else None
+
+    def _ev(e: ast.AST, val: dict[str, bool]) -> bool | None:
+        if isinstance(e, ast.Name) and e.id in named:
+            return _ev(named[e.id], val)
+        if isinstance(e, ast.UnaryOp) and isinstance(e.op, ast.Not):
+            v = _ev(e.operand, val)
+            return None if v is None else not v
+        if isinstance(e, ast.BoolOp):
+            vs = [_ev(v_, val) for v_ in e.values]
+            if any(v is None for v in vs):
+                return None
+            return all(vs) if isinstance(e.op, ast.And) else any(vs)
+        k = _leaf(ast.unparse(e))
+        return None if k is None else val[k]
+
     hits = []
+    ok = False
     for r in rs:
-        gs = [(ast.unparse(g), pol) for g, pol in guards_of(r)]
-        if len(gs) == 1 and gs[0][1] and "is_async" in gs[0][0]:
-            hits.append(gs[0][0])
-    want_atoms = ("eval_ctx.environment.is_async", "jinja_async_variant", "iscoroutinefunction(func)")
-    ok = len(hits) == 1 and all(a in hits[0] for a in want_atoms)
-    if ok:
-        # no further conjunct may narrow the refusal (e.g. `self._is_filter and ...`)
-        test = next(g for r in rs for g, pol in guards_of(r) if "is_async" in ast.unparse(g))
-        conj = test.values if isinstance(test, ast.BoolOp) and isinstance(test.op, ast.And) else [test]
-        extra = [ast.unparse(c) for c in conj if not any(a in ast.unparse(c) for a in want_atoms)]
-        ok = not extra and len(conj) == 2
+        gs_ = guards_of(r)
+        if not any("is_async" in ast.unparse(g) or (isinstance(g, ast.Name) and g.id in named) for g, pol in gs_):
+            continue
+        hits.append([(ast.unparse(g), pol) for g, pol in gs_])
+        good = True
+        for i_, v_, c_ in _it.product([True, False], repeat=3):
+            val = {"I": i_, "V": v_, "C": c_}
+            rv = [(_ev(g, val), pol) for g, pol in gs_]
+            if any(x is None for x, _ in rv):
+                good = False
+                break
+            got = all((x if pol else not x) for x, pol in rv)
+            if got != (i_ and (v_ or c_)):
+                good = False
+                break
+        ok = good if len(hits) == 1 else False
     ctx.check(ok, "filter-fold:async-refusal", "nodes:_FilterTestCommon.as_const", f"async refusal guarded by {hits}",
               f"_FilterTestCommon.as_const must `raise Impossible()` under exactly `eval_ctx.environment.is_async and (jinja_async_variant or iscoroutinefunction(func))` - for filters and tests alike; found {hits}: a coroutine test / filter on constant operands is called at compile time, its coroutine is never awaited (RuntimeWarning) and its repr is folded into the template",
               f"src/jinja2/nodes.py:{ft.lineno}")  # type: ignore[attr-defined]
@@ -276,6 +311,24 @@ def visitor_forwarding_rule(ctx: Ctx, rid: str) -> None:
     ctx.floor("forwarding sites", n, 15)
 
 
+def _canon_comp(e: ast.AST) -> str:
+    """Text of an expression with the target names of its comprehensions renamed to _c0, _c1 ...
+    in order of binding (the names are bound variables)."""
+    import copy
+
+    e = copy.deepcopy(e)
+    ren: dict[str, str] = {}
+    for comp in ast.walk(e):
+        if isinstance(comp, ast.comprehension):
+            for t_ in ast.walk(comp.target):
+                if isinstance(t_, ast.Name) and t_.id not in ren:
+                    ren[t_.id] = f"_c{len(ren)}"
+    for n_ in ast.walk(e):
+        if isinstance(n_, ast.Name) and n_.id in ren:
+            n_.id = ren[n_.id]
+    return ast.unparse(e)
+
+
 def r3_safe_repr(ctx: Ctx, rid: str = "R3") -> None:
     """Shared with C01: a value is written into the generated module with repr() only when
     that repr is a Python literal, otherwise compile() fails with a host-language error."""
@@ -286,12 +339,15 @@ def r3_safe_repr(ctx: Ctx, rid: str = "R3") -> None:
     # normal form: a local naming type(value) is inlined, the chain of early returns is an if / else chain
     branches = [n_ for n_ in ast.walk(hs.nnode) if isinstance(n_, ast.If)]
     safe_atoms = {"bool", "int", "float", "complex", "range", "str", "Markup"}
+    # a local naming type(value) that is read several times stays a local in the normal form
+    type_alias = {t_.id for a_ in ast.walk(hs.nnode) if isinstance(a_, ast.Assign) and ast.unparse(a_.value) == "type(value)" for t_ in a_.targets if isinstance(t_, ast.Name)}
+    type_alias = {n_ for n_ in type_alias if sum(1 for a_ in ast.walk(hs.nnode) if isinstance(a_, ast.Name) and a_.id == n_ and isinstance(a_.ctx, ast.Store)) == 1}
     seq_types = {"tuple", "list", "set", "frozenset"}
     nb = 0
     for b in branches:
         t_ = b.test
         types: set[str] = set()
-        if isinstance(t_, ast.Compare) and ast.unparse(t_.left) == "type(value)":
+        if isinstance(t_, ast.Compare) and (ast.unparse(t_.left) == "type(value)" or ast.unparse(t_.left) in type_alias):
             comp = t_.comparators[0]
             if isinstance(comp, (ast.Set, ast.Tuple, ast.List)):
                 types = {ast.unparse(e) for e in comp.elts}
@@ -306,7 +362,7 @@ def r3_safe_repr(ctx: Ctx, rid: str = "R3") -> None:
             continue
         nb += 1
         ret = [r for r in b.body if isinstance(r, ast.Return)]
-        rtxt = ast.unparse(ret[0].value) if ret else ""
+        rtxt = _canon_comp(ret[0].value) if ret else ""
         if "int" in types:
             # repr() of an int is a literal only when the conversion to text is allowed at all
             # (sys.set_int_max_str_digits): the int arm has to try it (or bound the magnitude)
@@ -317,10 +373,10 @@ def r3_safe_repr(ctx: Ctx, rid: str = "R3") -> None:
             ctx.check(types <= safe_atoms, f"atoms:{sorted(types)}", "compiler:has_safe_repr", f"atomic types {sorted(types - safe_atoms)}", f"types {sorted(types - safe_atoms)} are declared safe but their repr is not a literal", hs.loc(b))
         else:
             if "dict" in types:
-                ok = ".items()" in rtxt and "has_safe_repr(k)" in rtxt and "has_safe_repr(v)" in rtxt and types == {"dict"}
+                ok = rtxt == "all((has_safe_repr(_c0) and has_safe_repr(_c1) for _c0, _c1 in value.items()))" and types == {"dict"}
                 ctx.check(ok, "containers:dict", "compiler:has_safe_repr", "dict components", "the dict branch must check keys AND values (iterating a dict yields keys only): an unsafe value is written into the generated source with repr()", hs.loc(b), detail={"types": sorted(types), "returns": rtxt})
             else:
-                ok = types <= seq_types and "has_safe_repr(v) for v in value" in rtxt and rtxt.startswith("all(")
+                ok = types <= seq_types and rtxt == "all((has_safe_repr(_c0) for _c0 in value))"
                 ctx.check(ok, f"containers:{sorted(types)}", "compiler:has_safe_repr", f"sequence components {sorted(types)}", "sequence branches must require every element to be safe", hs.loc(b))
     ctx.floor("type branches in has_safe_repr", nb, 3)
     last = sorted(astq.returns(hs.nnode), key=lambda r_: (r_.lineno, r_.col_offset))[-1]
@@ -329,7 +385,7 @@ def r3_safe_repr(ctx: Ctx, rid: str = "R3") -> None:
     bad = False
     for c in astq.calls(vc.node):
         if astq.callee(c) == "self.write" and c.args and ast.unparse(c.args[0]) in ("str(val)", "repr(val)"):
-            gts = astq.guard_texts(vc.node, c)
+            gts = astq.guard_atoms(vc.node, c)  # signed atoms only: a raw `not isinstance(...)` text must not be read as the positive test
             is_float_path = any("isinstance(val, float)" in g and pol for g, pol in gts) or not any("isinstance(val, float)" in g for g, pol in gts)
             finite_guard = any(("inf" in g or "isfinite" in g or "isnan" in g or "val != val" in g) for g, pol in gts)
             if is_float_path and not finite_guard and any("isinstance(val, float)" in g and pol for g, pol in gts):
@@ -339,7 +395,7 @@ def r3_safe_repr(ctx: Ctx, rid: str = "R3") -> None:
     # a leading sign has been ruled out
     for c in astq.calls(vc.node):
         if astq.callee(c) == "self.write" and c.args and ast.unparse(c.args[0]) in ("str(val)", "repr(val)"):
-            gts = astq.guard_texts(vc.node, c)
+            gts = astq.guard_atoms(vc.node, c)  # signed atoms only: a raw `not isinstance(...)` text must not be read as the positive test
             float_path = any("isinstance(val, float)" in g and pol for g, pol in gts)
             # for a float only the *text* tells the sign: -0.0 < 0 is false but str(-0.0) is "-0.0"
             signed_out = any(((("< 0" in g) and not float_path) or ("'-'" in g) or ('"-"' in g) or ("copysign" in g)) and not pol for g, pol in gts)
